@@ -2,7 +2,7 @@ SPECIFICATION Spec
 CONSTANTS
   Part = "intpow"
   IntTypes <- TIntAll
-  MaxE = 40
+  MaxE = 24
   MaxN = 200
 INVARIANT IntPowMachineOK
 INVARIANT IntPowExact
